@@ -1,7 +1,9 @@
 package main
 
 import (
+	"fmt"
 	"go/types"
+	"os"
 	"sort"
 	"strings"
 
@@ -11,10 +13,12 @@ import (
 // modSet: what a loop (or any region) may modify, found by a scratch execution of its body from a
 // fully havoced state and a diff of the resulting states against that start state.
 type modSet struct {
-	cells map[*ssa.Alloc]bool
-	ccell map[*Cell]bool
-	heaps map[string]*Sort
-	all   bool
+	// owned heap cells (see ownedCell) whose content the loop itself assigns: "heap|ref id"
+	stableMod map[string]bool
+	cells     map[*ssa.Alloc]bool
+	ccell     map[*Cell]bool
+	heaps     map[string]*Sort
+	all       bool
 }
 
 func (X *Exec) modifiedIn(fr *Frame, li *loopInfo, st *State) *modSet {
@@ -86,6 +90,11 @@ func (X *Exec) modifiedIn(fr *Frame, li *loopInfo, st *State) *modSet {
 			continue
 		}
 		delete(s.Heaps, n)
+		if strings.HasPrefix(n, "LK|") || strings.HasPrefix(n, "GH|") {
+			// not epoch-based: an arbitrary lock state / ghost value at the loop head (the pre-state constant would
+			// make paths that unlock look infeasible)
+			s.Heaps[n] = X.E.TS.Fresh("scr."+n, X.heapSorts[n])
+		}
 		startHeaps[n] = X.heap(s, n, X.heapSorts[n])
 	}
 	cfg := analyzeCFG(fr.Fn)
@@ -127,6 +136,17 @@ func (X *Exec) modifiedIn(fr *Frame, li *loopInfo, st *State) *modSet {
 			}
 			if v != v0 {
 				ms.heaps[n] = X.heapSorts[n]
+				for _, sr := range f.Stable {
+					if sr.Heap == n && X.E.TS.Select(v, sr.Ref) != X.E.TS.Select(v0, sr.Ref) {
+						if ms.stableMod == nil {
+							ms.stableMod = map[string]bool{}
+						}
+						ms.stableMod[fmt.Sprintf("%s|%p", n, sr.Alloc)] = true
+					}
+				}
+			}
+			if os.Getenv("GOVC_DBG") != "" && strings.HasPrefix(n, "LK|") {
+				fmt.Fprintf(os.Stderr, "modifiedIn %s: %s start=%s final=%s\n", key, n, X.E.TS.Show(v0), X.E.TS.Show(v))
 			}
 		}
 	}
@@ -167,7 +187,14 @@ func (X *Exec) havocMod(fr *Frame, st *State, ms *modSet, tag string) {
 			continue
 		}
 		X.heapSorts[n] = ms.heaps[n]
-		st.Heaps[n] = X.E.TS.Fresh(tag+"."+n, ms.heaps[n])
+		oldH := X.heap(st, n, ms.heaps[n])
+		nh := X.E.TS.Fresh(tag+"."+n, ms.heaps[n])
+		for _, sr := range st.Stable {
+			if sr.Heap == n && !ms.stableMod[fmt.Sprintf("%s|%p", n, sr.Alloc)] {
+				nh = X.E.TS.Store(nh, sr.Ref, X.E.TS.Select(oldH, sr.Ref)) // an owned cell the loop does not assign
+			}
+		}
+		st.Heaps[n] = nh
 	}
 }
 
@@ -197,6 +224,19 @@ func (X *Exec) havocAll(st *State, tag string) {
 		}
 	}
 	oldAlloc := X.heap(st, AllocHeap, ArraySort(SInt, SBool))
+	type kept struct {
+		sr stableRec
+		v  *Term
+	}
+	var stable []kept
+	for _, sr := range st.Stable {
+		stable = append(stable, kept{sr, X.E.TS.Select(X.heap(st, sr.Heap, sr.Sort), sr.Ref)})
+	}
+	defer func() {
+		for _, k := range stable {
+			X.setHeap(st, k.sr.Heap, k.sr.Sort, X.E.TS.Store(X.heap(st, k.sr.Heap, k.sr.Sort), k.sr.Ref, k.v))
+		}
+	}()
 	X.epochSeq++
 	st.Epoch = X.epochSeq
 	for _, n := range names {
